@@ -341,12 +341,15 @@ def check_module(case, ctx):
 
     # (a') a module bound to a derivative takes every argument that is NOT given from the derivative - and only those
     partial = {"log_moneyness": s - 0.0625, "time_to_maturity": t + 0.03125, "volatility": v * 1.25}
+    if m is not None:
+        partial["max_log_moneyness"] = m + 0.125  # a running maximum supplied by the caller (still above the spot)
     for arg, val in partial.items():
         if torch.isnan(val).any():
             continue
         with ctx.sut("C07/module/price"):
             gp = mod.price(**{arg: val})
-            rp = call_price(kind, "functional", partial["log_moneyness"] if arg == "log_moneyness" else s, m,
+            rp = call_price(kind, "functional", partial["log_moneyness"] if arg == "log_moneyness" else s,
+                            partial["max_log_moneyness"] if arg == "max_log_moneyness" else m,
                             partial["time_to_maturity"] if arg == "time_to_maturity" else t,
                             partial["volatility"] if arg == "volatility" else v, K, call)
         badp = ~(torch.isnan(gp) & torch.isnan(rp)) & ~((gp - rp).abs() <= 4 * EPS[dtype] * sc)
